@@ -236,6 +236,59 @@ template <typename L, typename F, typename T> long long b_tp_lt(long long a, lon
 template <typename L, typename F, typename T> long long b_tp_le(long long a, long long b) { return TPF <= TPT; }
 template <typename L, typename F, typename T> long long b_tp_gt(long long a, long long b) { return TPF > TPT; }
 template <typename L, typename F, typename T> long long b_tp_ge(long long a, long long b) { return TPF >= TPT; }
+// non-member time_point arithmetic and duration (op) tick-count value ([time.point.nonmember], [time.duration.nonmember]).
+// Guarded by presence so that a tree without them costs only the probe units C12_ops_tp / C12_ops_scalar (compile-failure), not this table.
+// (on such a tree `sys_days + days` still "compiles" - through weekday's implicit constructor - hence the .time_since_epoch())
+template <typename L, typename F, typename T>
+constexpr bool has_tp_ops = requires(typename L::template tp<F> p, typename L::template tp<T> q, T d) {
+    (p + d).time_since_epoch();
+    (d + p).time_since_epoch();
+    (p - d).time_since_epoch();
+    (p - q).count();
+};
+template <typename L, typename F, typename T>
+constexpr bool has_scalar_ops = requires(F d, REPT k) {
+    (d * k).count();
+    (k * d).count();
+    (d / k).count();
+    (d % k).count();
+};
+template <typename L, typename F, typename T> long long b_tp_add(long long a, long long b) { if constexpr (has_tp_ops<L, F, T>) { return (TPF + T{(REPT)b}).time_since_epoch().count(); } else { return 0; } }
+template <typename L, typename F, typename T> long long b_tp_radd(long long a, long long b) { if constexpr (has_tp_ops<L, F, T>) { return (T{(REPT)b} + TPF).time_since_epoch().count(); } else { return 0; } }
+template <typename L, typename F, typename T> long long b_tp_sub(long long a, long long b) { if constexpr (has_tp_ops<L, F, T>) { return (TPF - T{(REPT)b}).time_since_epoch().count(); } else { return 0; } }
+template <typename L, typename F, typename T> long long b_tp_diff(long long a, long long b) { if constexpr (has_tp_ops<L, F, T>) { return (TPF - TPT).count(); } else { return 0; } }
+// the scalar has the To representation, so mixed-representation cells compute in common_type<Rep1, Rep2>
+template <typename L, typename F, typename T> long long b_mul_ds(long long a, long long b) { if constexpr (has_scalar_ops<L, F, T>) { return (F{(REPF)a} * (REPT)b).count(); } else { return 0; } }
+template <typename L, typename F, typename T> long long b_mul_sd(long long a, long long b) { if constexpr (has_scalar_ops<L, F, T>) { return ((REPT)b * F{(REPF)a}).count(); } else { return 0; } }
+template <typename L, typename F, typename T> long long b_div_ds(long long a, long long b) { if constexpr (has_scalar_ops<L, F, T>) { return (F{(REPF)a} / (REPT)b).count(); } else { return 0; } }
+template <typename L, typename F, typename T> long long b_mod_ds(long long a, long long b) { if constexpr (has_scalar_ops<L, F, T>) { return (F{(REPF)a} % (REPT)b).count(); } else { return 0; } }
+// declared result types (true when the operators are absent: absence is the probe unit's business)
+template <typename L, typename F, typename T>
+constexpr bool tp_ops_types_ok()
+{
+    if constexpr (has_tp_ops<L, F, T>) {
+        using P  = typename L::template tp<F>;
+        using Q  = typename L::template tp<T>;
+        using CD = typename L::template common<F, T>;
+        using R  = typename L::template tp<CD>;
+        return std::is_same_v<decltype(std::declval<P>() + std::declval<T>()), R> && std::is_same_v<decltype(std::declval<T>() + std::declval<P>()), R>
+            && std::is_same_v<decltype(std::declval<P>() - std::declval<T>()), R> && std::is_same_v<decltype(std::declval<P>() - std::declval<Q>()), CD>;
+    } else {
+        return true;
+    }
+}
+template <typename L, typename F, typename T, template <typename, typename> class Dur>
+constexpr bool scalar_ops_types_ok()
+{
+    if constexpr (has_scalar_ops<L, F, T>) {
+        using R = Dur<std::common_type_t<REPF, REPT>, typename F::period>;
+        return std::is_same_v<decltype(std::declval<F>() * std::declval<REPT>()), R> && std::is_same_v<decltype(std::declval<REPT>() * std::declval<F>()), R>
+            && std::is_same_v<decltype(std::declval<F>() / std::declval<REPT>()), R> && std::is_same_v<decltype(std::declval<F>() % std::declval<REPT>()), R>;
+    } else {
+        return true;
+    }
+}
+
 // compound From x From
 template <typename L, typename F, typename T> long long c_addeq(long long a, long long b) { F d{(REPF)a}; return (d += F{(REPF)b}).count(); }
 template <typename L, typename F, typename T> long long c_subeq(long long a, long long b) { F d{(REPF)a}; return (d -= F{(REPF)b}).count(); }
@@ -286,8 +339,10 @@ char const* const kUName[U_N] = {"duration_cast<To>(from)", "floor<To>(from)", "
     "time_point-- (returned)", "time_point-- (state)"};
 enum KOp { K_MULEQ, K_DIVEQ, K_MODEQ, K_N };
 char const* const kKName[K_N] = {"d*=k", "d/=k", "d%=k"};
-enum BOp { B_ADD, B_SUB, B_DIV, B_MOD, B_EQ, B_NE, B_LT, B_LE, B_GT, B_GE, B_TP_EQ, B_TP_NE, B_TP_LT, B_TP_LE, B_TP_GT, B_TP_GE, B_N };
-char const* const kBName[B_N] = {"a+b", "a-b", "a/b", "a%b", "a==b", "a!=b", "a<b", "a<=b", "a>b", "a>=b", "tp==tp", "tp!=tp", "tp<tp", "tp<=tp", "tp>tp", "tp>=tp"};
+enum BOp { B_ADD, B_SUB, B_DIV, B_MOD, B_EQ, B_NE, B_LT, B_LE, B_GT, B_GE, B_TP_EQ, B_TP_NE, B_TP_LT, B_TP_LE, B_TP_GT, B_TP_GE, B_TP_ADD, B_TP_RADD, B_TP_SUB,
+    B_TP_DIFF, B_MUL_DS, B_MUL_SD, B_DIV_DS, B_MOD_DS, B_N };
+char const* const kBName[B_N] = {"a+b", "a-b", "a/b", "a%b", "a==b", "a!=b", "a<b", "a<=b", "a>b", "a>=b", "tp==tp", "tp!=tp", "tp<tp", "tp<=tp", "tp>tp", "tp>=tp",
+    "tp+d", "d+tp", "tp-d", "tp-tp", "d*k", "k*d", "d/k", "d%k"};
 enum COp { C_ADDEQ, C_SUBEQ, C_MODEQ, C_TP_ADDEQ, C_TP_SUBEQ, C_N };
 char const* const kCName[C_N] = {"d+=d", "d-=d", "d%=d", "time_point+=d", "time_point-=d"};
 
@@ -310,6 +365,7 @@ struct IntDesc {
     Fn1 ue[U_N], us[U_N];
     Fn2 ke[K_N], ks[K_N], be[B_N], bs[B_N], ce[C_N], cs[C_N];
     Fn2 lide[L_N], lids[L_N], lche[L_N], lchs[L_N], xe[X_N], xs[X_N];
+    bool tp_ops, scalar_ops; // the non-member operators exist in tetl (their absence is reported by the probe units C12_ops_*)
     bool diag; // From period == To period: the cell that runs the From-only lvalue checks
     std::vector<TypeFact> facts;
     std::vector<Absent> absent;
@@ -359,6 +415,10 @@ IntDesc const& int_desc()
         BOTH(b, B_ADD, b_add) BOTH(b, B_SUB, b_sub) BOTH(b, B_DIV, b_div) BOTH(b, B_MOD, b_mod) BOTH(b, B_EQ, b_eq) BOTH(b, B_NE, b_ne)
         BOTH(b, B_LT, b_lt) BOTH(b, B_LE, b_le) BOTH(b, B_GT, b_gt) BOTH(b, B_GE, b_ge) BOTH(b, B_TP_EQ, b_tp_eq) BOTH(b, B_TP_NE, b_tp_ne)
         BOTH(b, B_TP_LT, b_tp_lt) BOTH(b, B_TP_LE, b_tp_le) BOTH(b, B_TP_GT, b_tp_gt) BOTH(b, B_TP_GE, b_tp_ge)
+        BOTH(b, B_TP_ADD, b_tp_add) BOTH(b, B_TP_RADD, b_tp_radd) BOTH(b, B_TP_SUB, b_tp_sub) BOTH(b, B_TP_DIFF, b_tp_diff)
+        BOTH(b, B_MUL_DS, b_mul_ds) BOTH(b, B_MUL_SD, b_mul_sd) BOTH(b, B_DIV_DS, b_div_ds) BOTH(b, B_MOD_DS, b_mod_ds)
+        x.tp_ops     = has_tp_ops<EL, EF, ET>;
+        x.scalar_ops = has_scalar_ops<EL, EF, ET>;
         BOTH(c, C_ADDEQ, c_addeq) BOTH(c, C_SUBEQ, c_subeq) BOTH(c, C_MODEQ, c_modeq) BOTH(c, C_TP_ADDEQ, c_tp_addeq) BOTH(c, C_TP_SUBEQ, c_tp_subeq)
 #undef BOTH
         x.diag = I1 == I2;
@@ -393,6 +453,9 @@ IntDesc const& int_desc()
             {"decltype(floor<To>(tp))", std::is_same_v<decltype(ec::floor<ET>(ETPF{})), ETPT>, std::is_same_v<decltype(sc::floor<ST>(STPF{})), STPT>},
             {"common_type<time_point>", std::is_same_v<etl::common_type_t<ETPF, ETPT>, ec::time_point<ec::system_clock, ECD>>,
                 std::is_same_v<std::common_type_t<STPF, STPT>, sc::time_point<sc::system_clock, SCD>>},
+            {"decltype(tp+d), (d+tp), (tp-d) is time_point<Clock,common_type>; (tp-tp) is common_type", tp_ops_types_ok<EL, EF, ET>(), tp_ops_types_ok<SL, SF, ST>()},
+            {"decltype(d*k), (k*d), (d/k), (d%k) is duration<common_type<Rep1,Rep2>,Period>", scalar_ops_types_ok<EL, EF, ET, ec::duration>(),
+                scalar_ops_types_ok<SL, SF, ST, sc::duration>()},
             // declared result types: compound assignment and prefix ++/-- yield an lvalue reference to the object, postfix a prvalue
 #define LREF(X, T_) std::is_same_v<decltype(X), T_&>
 #define DV(T_) std::declval<T_&>()
@@ -418,10 +481,7 @@ IntDesc const& int_desc()
 #undef DC
         };
         x.absent = {
-            {"duration * rep", can_mul<EF, R1>}, {"rep * duration", can_mul<R1, EF>}, {"duration / rep", can_div<EF, R1>},
-            {"duration % rep", can_mod<EF, R1>}, {"duration <=> duration", can_3way<EF, ET>}, {"time_point + duration", can_add<ETPF, EF>},
-            {"duration + time_point", can_add<EF, ETPF>}, {"time_point - duration", can_sub<ETPF, EF>},
-            {"time_point - time_point", can_sub<ETPF, ETPF>}, {"time_point <=> time_point", can_3way<ETPF, ETPT>},
+            {"duration <=> duration", can_3way<EF, ET>}, {"time_point <=> time_point", can_3way<ETPF, ETPT>},
         };
         return x;
     }();
@@ -702,6 +762,35 @@ struct IntCell {
         b(B_TP_LE, sit, args, argh, a <= bb, x, y, true);
         b(B_TP_GT, sit, args, argh, a > bb, x, y, true);
         b(B_TP_GE, sit, args, argh, a >= bb, x, y, true);
+        if (D.tp_ops) {
+            if (D.lc.has(a + bb)) {
+                b(B_TP_ADD, sit, args, argh, a + bb, x, y, false);
+                b(B_TP_RADD, sit, args, argh, a + bb, x, y, false); // commutes: same exact value
+            }
+            if (D.lc.has(a - bb)) {
+                b(B_TP_SUB, sit, args, argh, a - bb, x, y, false);
+                b(B_TP_DIFF, sit, args, argh, a - bb, x, y, false);
+            }
+        }
+    }
+    // duration (op) tick-count value; the scalar carries the To representation, computation type = common_type<Rep1, Rep2>
+    void scalar_free(i128 c1, i128 k)
+    {
+        if (!D.scalar_ops || !D.lc.has(c1) || !D.lc.has(k)) { return; }
+        char args[96];
+        std::snprintf(args, sizeof args, "count=%s k=%s", s128(c1).c_str(), s128(k).c_str());
+        std::uint64_t const argh = vf::mix((std::uint64_t)(long long)c1, (std::uint64_t)(long long)k + 7777);
+        long long const x = (long long)c1, y = (long long)k;
+        char sit[96];
+        std::snprintf(sit, sizeof sit, "count-%s,k-%s,%s", sign_sit(c1), sign_sit(k), mag_sit(c1));
+        if (D.lc.has(c1 * k)) {
+            b(B_MUL_DS, sit, args, argh, c1 * k, x, y, false);
+            b(B_MUL_SD, sit, args, argh, c1 * k, x, y, false);
+        }
+        if (k != 0 && D.lc.has(c1 / k)) {
+            b(B_DIV_DS, sit, args, argh, c1 / k, x, y, false);
+            b(B_MOD_DS, sit, args, argh, c1 % k, x, y, false);
+        }
     }
     // same-type compound assignment (second operand re-typed as From)
     void compound(i128 c1, i128 c2)
@@ -775,6 +864,7 @@ struct IntCell {
             if (c.random) { push_unique(rs, c.cs->rng.range(-100000, 100000)); }
             for (i128 c2 : rs) {
                 if (D.l2.has(c2)) { binary(c1, c2); }
+                if (D.l2.has(c2)) { scalar_free(c1, c2); }
                 compound(c1, c2);
             }
         }
